@@ -171,15 +171,29 @@ impl<'a, R, C> Cache<super::Patches<'a, R>, C> {
     where
         G: crypto::signature::Signer<crypto::Signature>,
         R: ReadRepository + SignRepository + cob::Store<Namespace = NodeId>,
-        C: Remove<Patch>,
+        C: Update<Patch> + Remove<Patch>,
     {
         self.store.remove(id, signer)?;
-        self.cache
-            .remove(id)
-            .map_err(|e| super::Error::CacheRemove {
-                id: *id,
-                err: e.into(),
-            })?;
+        // Nb. Only our own reference to the object is removed. If other peers still
+        // have theirs, the object continues to exist in the repository, and the cache
+        // has to reflect that, as it does after a fetch.
+        match self.store.get(id)? {
+            Some(object) => {
+                self.update(&self.rid(), id, &object)
+                    .map_err(|e| super::Error::CacheUpdate {
+                        id: *id,
+                        err: e.into(),
+                    })?;
+            }
+            None => {
+                self.cache
+                    .remove(id)
+                    .map_err(|e| super::Error::CacheRemove {
+                        id: *id,
+                        err: e.into(),
+                    })?;
+            }
+        }
         Ok(())
     }
 
